@@ -46,17 +46,17 @@ class Prop:
 class C15(Prop):
     owns_determinism = True
     id = "C15"
-    scen_order = ["pairs", "triples", "sweep", "reuse", "interleave"]
+    scen_order = ["pairs", "dialects", "triples", "sweep", "reuse", "interleave"]
     counts = {
-        "quick": {"pairs": "all", "triples": 0, "sweep": 0, "reuse": 4000, "interleave": 10000},
-        "thorough": {"pairs": "all", "triples": "all", "sweep": "all", "reuse": 120000, "interleave": 700000},
+        "quick": {"pairs": "all", "dialects": "all", "triples": 0, "sweep": 0, "reuse": 4000, "interleave": 10000},
+        "thorough": {"pairs": "all", "dialects": "all", "triples": "all", "sweep": "all", "reuse": 120000, "interleave": 700000},
     }
 
     def count(self, scen, tier):
         from . import scen_c15
         c = self.counts[tier][scen]
         if c == "all":
-            return scen_c15.n_pairs() if scen == "pairs" else scen_c15.n_sweep() if scen == "sweep" else scen_c15.n_triples()
+            return {"pairs": scen_c15.n_pairs, "sweep": scen_c15.n_sweep, "dialects": scen_c15.n_dialects, "triples": scen_c15.n_triples}[scen]()
         return c
 
     def spec(self, scen, index, seed):
@@ -67,6 +67,8 @@ class C15(Prop):
             return scen_c15.triple_spec(index)
         if scen == "sweep":
             return scen_c15.sweep_spec(index)
+        if scen == "dialects":
+            return scen_c15.dialect_spec(index)
         rng = random.Random(splitmix64(seed, "C15/" + scen, index))
         return scen_c15.gen_reuse(rng) if scen == "reuse" else scen_c15.gen_interleave(rng)
 
@@ -104,6 +106,7 @@ class C15(Prop):
             "pairs_total": scen_c15.n_pairs(), "pairs_done": runs.get("pairs", 0), "pairs_exhaustive": runs.get("pairs", 0) == scen_c15.n_pairs(),
             "triples_total": scen_c15.n_triples(), "triples_done": runs.get("triples", 0),
             "pool_documents": len(workload.pool()), "configurations": [c["name"] for c in scen_c15.CONFIGS],
+            "dialect_pairs_done": runs.get("dialects", 0), "dialect_pairs_total": scen_c15.n_dialects(),
             "sweep_all_two_task_interleavings_done": runs.get("sweep", 0), "sweep_total": scen_c15.n_sweep() if runs.get("sweep") else None,
             "sweep_documents": [d[0] for d in scen_c15.SWEEP_DOCS],
             "schedules_distinct": len(merged["schedules"]), "joint_states_distinct": len(merged["joint"]),
@@ -257,7 +260,7 @@ def run_worker(args):
     for scen, total in args["work"]:
         done = 0
         dg = {}
-        sampled = scen not in ("pairs", "triples", "enum", "sweep")
+        sampled = scen not in ("pairs", "triples", "enum", "sweep", "dialects")
         if args.get("only_det"):
             indices = range(0, min(args.get("det_sample", DET_SAMPLE), total))
         else:
@@ -351,7 +354,7 @@ def run_check(pid, tier, seed, nworkers):
         for w in range(nworkers):
             jobs.append(({"job": "runs", "name": "w%d" % w, "prop": pid, "tier": tier, "seed": seed, "w": w, "n": nworkers, "work": work,
                           "out": os.path.join(wd, "w%d.json" % w), "wall_s": wall}, 1 + splitmix64(seed, "whs", w) % 4000000000))
-        sampled = [(s, c) for s, c in work if s not in ("pairs", "triples", "enum", "sweep")]
+        sampled = [(s, c) for s, c in work if s not in ("pairs", "triples", "enum", "sweep", "dialects")]
         for sh in range(2):
             jobs.append(({"job": "runs", "name": "shadow%d" % sh, "prop": pid, "tier": tier, "seed": seed, "w": 0, "n": 1, "work": sampled, "only_det": True,
                           "out": os.path.join(wd, "shadow%d.json" % sh), "wall_s": wall}, 1 + splitmix64(seed, "shs", sh) % 4000000000))
